@@ -68,6 +68,17 @@ struct FamTraits : public momo::HashTraits<Key, HashBucket>
 };
 
 struct FamHasher { size_t operator()(uint32_t k) const { return famHash(k); } };
+// transparent twins (wrapper part): the same hash / equality, also for a key of another type (heterogeneous lookup of the wrapper)
+struct HKey { uint32_t k; };
+struct FamHasherT { typedef void is_transparent; size_t operator()(uint32_t k) const { return famHash(k); } size_t operator()(HKey h) const { return famHash(h.k); } };
+struct EqT {
+	typedef void is_transparent;
+	bool operator()(uint32_t a, uint32_t b) const { return a == b; }
+	bool operator()(uint32_t a, HKey b) const { return a == b.k; }
+	bool operator()(HKey a, uint32_t b) const { return a.k == b; }
+};
+template<typename W, typename = void> struct IsTransparentW : std::false_type {};
+template<typename W> struct IsTransparentW<W, decltype((void)std::declval<const W&>().count(std::declval<const HKey&>()))> : std::true_type {};
 
 template<size_t tMaxFast>
 struct MMSettings : public momo::HashMultiMapSettings
@@ -502,6 +513,37 @@ static void checkWrapper(Ctx& c, W& A, const StdMM& ref, unsigned keyRange, cons
 		if (sorted(a) != sorted(b)) { c.fail("C08 wrapper equal_range: %s %s: equal_range(%u) yields %zu values, std %zu (or other values)", suite.c_str(), when, k, a.size(), b.size()); break; }
 		if ((A.find(k) != A.end()) != (ref.find(k) != ref.end())) { c.fail("C08 wrapper find: %s %s: find(%u) %s end() but std says otherwise (value-less key exposed?)", suite.c_str(), when, k, A.find(k) != A.end() ? "!=" : "=="); break; }
 		if (A.contains(k) != (ref.count(k) > 0)) { c.fail("C08 wrapper contains: %s %s: contains(%u)", suite.c_str(), when, k); break; }
+		// the const overloads
+		{
+			const W& cA = A;
+			auto cr = cA.equal_range(k);
+			std::vector<uint32_t> ca; for (auto it = cr.first; it != cr.second; ++it) ca.push_back(it->second);
+			if (sorted(ca) != sorted(b) || (cA.find(k) != cA.end()) != (ref.count(k) > 0)) { c.fail("C08 wrapper const lookups: %s %s: equal_range(%u) const yields %zu values, std %zu, or find(%u) const disagrees (value-less key exposed?)", suite.c_str(), when, k, ca.size(), b.size(), k); break; }
+		}
+		// the heterogeneous overloads (transparent hash / equality): the same answers, value-less keys stay hidden
+		if constexpr (IsTransparentW<W>::value) {
+			const W& cA = A; HKey hk{ k };
+			auto hr = A.equal_range(hk); auto chr = cA.equal_range(hk);
+			std::vector<uint32_t> ha, hca;
+			for (auto it = hr.first; it != hr.second; ++it) { ha.push_back(it->second); if (it->first != k) c.fail("C08 wrapper heterogeneous equal_range: %s %s: yields key %u for %u", suite.c_str(), when, it->first, k); }
+			for (auto it = chr.first; it != chr.second; ++it) hca.push_back(it->second);
+			bool present = ref.count(k) > 0;
+			if (sorted(ha) != sorted(b) || sorted(hca) != sorted(b) || cA.count(hk) != ref.count(k) || cA.contains(hk) != present || (A.find(hk) != A.end()) != present || (cA.find(hk) != cA.end()) != present) {
+				c.fail("C08 wrapper heterogeneous lookups: %s %s: key %u: count=%zu contains=%d find=%d cfind=%d equal_range yields %zu / const %zu values; std count %zu (value-less key exposed?)", suite.c_str(), when, k,
+					(size_t)cA.count(hk), (int)cA.contains(hk), (int)(A.find(hk) != A.end()), (int)(cA.find(hk) != cA.end()), ha.size(), hca.size(), ref.count(k));
+				break;
+			}
+			c.stats.count(present ? "wop.hetero_lookup_present" : (A.get_nested_container().ContainsKey(k) ? "wop.hetero_lookup_value_less_key" : "wop.hetero_lookup_absent"));
+		}
+	}
+	{
+		// cbegin() .. cend(), the observers
+		std::vector<std::pair<uint32_t, uint32_t>> cv; for (auto it = A.cbegin(); it != A.cend(); ++it) cv.push_back({ it->first, it->second });
+		if (cv != contents(A)) c.fail("C08 wrapper cbegin/cend: %s %s: another sequence than begin()..end()", suite.c_str(), when);
+		if (A.max_size() < A.size()) c.fail("C08 wrapper max_size: %s %s", suite.c_str(), when);
+		if (!A.key_eq()(keyRange, keyRange) || A.key_eq()(keyRange, keyRange + 1)) c.fail("C08 wrapper key_eq: %s %s", suite.c_str(), when);
+		typename W::hasher hf = A.hash_function(); typename W::hasher fresh;
+		if (hf(keyRange) != fresh(keyRange)) c.fail("C08 wrapper hash_function: %s %s", suite.c_str(), when);
 	}
 	auto a = sorted(contents(A)); std::vector<std::pair<uint32_t, uint32_t>> b(ref.begin(), ref.end()); b = sorted(b);
 	if (a != b) c.fail("C08 wrapper traversal: %s %s: iteration yields %zu pairs, std holds %zu (or different pairs)", suite.c_str(), when, a.size(), b.size());
@@ -594,7 +636,24 @@ static void runWrapper(Ctx& c, Rng& rng, bool open, unsigned fam, unsigned runNo
 		}
 		else if (r < 30) {
 			uint32_t v = serial++;
-			typename W::iterator it = rng.chance(1, 2) ? A.insert(std::make_pair(k, v)) : A.emplace(k, v);
+			// one abstract call "add k v": every spelling of insert / emplace (hints are ignored by the wrapper)
+			typename W::iterator it;
+			unsigned sp = (unsigned)rng.below(12);
+			switch (sp) {
+			case 0: it = A.insert(std::make_pair(k, v)); break;
+			case 1: it = A.emplace(k, v); break;
+			case 2: { const typename W::value_type x(k, v); it = A.insert(x); break; }
+			case 3: it = A.insert(A.cend(), typename W::value_type(k, v)); break;
+			case 4: { const std::pair<uint32_t, uint32_t> x(k, v); it = A.insert(A.cbegin(), x); break; }
+			case 5: it = A.emplace_hint(A.cbegin(), k, v); break;
+			case 6: it = A.emplace(std::piecewise_construct, std::forward_as_tuple((uint64_t)k), std::forward_as_tuple((uint64_t)v)); break;	// key built in a buffer (pvInsert)
+			case 7: it = A.emplace_hint(A.cend(), std::piecewise_construct, std::forward_as_tuple((uint64_t)k), std::forward_as_tuple(v)); break;
+			case 8: it = A.emplace(std::piecewise_construct, std::forward_as_tuple(k), std::forward_as_tuple(v)); break;
+			case 9: it = A.emplace(std::make_pair(k, v)); break;
+			case 10: it = A.emplace_hint(A.cbegin(), std::make_pair(k, v)); break;
+			default: { const uint32_t ck = k; it = A.emplace(ck, (uint16_t)0); it->second = v; break; }
+			}
+			c.stats.count(fmt("wop.insert_spelling_%u", sp));
 			if (it == A.end() || it->first != k || it->second != v) c.fail("C08 wrapper insert: %s insert(%u,%u) returned another element", suite.c_str(), k, v);
 			refA.emplace(k, v);
 			op = fmt("add %u 0 %u", k, v); res = "1";
@@ -623,7 +682,8 @@ static void runWrapper(Ctx& c, Rng& rng, bool open, unsigned fam, unsigned runNo
 				auto it = A.equal_range(k).first; for (size_t t = 0; t < i; ++t) ++it;
 				uint32_t v = it->second;
 				bool range1 = rng.chance(1, 3);	// the single-element range form erase(it, std::next(it))
-				typename W::iterator nx = range1 ? A.erase(it, std::next(it)) : A.erase(it);
+				typename W::const_iterator cit = it;
+				typename W::iterator nx = range1 ? A.erase(it, std::next(it)) : (rng.chance(1, 2) ? A.erase(it) : A.erase(cit));
 				if (!stdEraseOne(refA, k, v)) c.fail("C08 wrapper erase(it): %s element %u:%u unknown to std", suite.c_str(), k, v);
 				if (A.count(k) != cnt - 1) c.fail("C08 wrapper erase(it): %s erase of %u:%u left count(%u)=%zu expected %zu", suite.c_str(), k, v, k, A.count(k), cnt - 1);
 				op = fmt("werasei %u %zu", k, i); res = derefStr(nx);
@@ -743,8 +803,8 @@ int main(int argc, char** argv)
 	runNativeCfg<KeyP, uint32_t, momo::HashBucketOpen2N2<3>, 15, 2>(c, rng, "Open2N2", 3, "kp");
 #else
 	{
-		typedef momo::stdish::unordered_multimap<uint32_t, uint32_t, FamHasher> W1;
-		typedef momo::stdish::unordered_multimap_open<uint32_t, uint32_t, FamHasher> W2;
+		typedef momo::stdish::unordered_multimap<uint32_t, uint32_t, FamHasherT, EqT> W1;	// transparent: heterogeneous lookups
+		typedef momo::stdish::unordered_multimap_open<uint32_t, uint32_t, FamHasherT, EqT> W2;
 		typedef momo::stdish::unordered_multimap<uint32_t, uint32_t> W3;
 		typedef momo::stdish::unordered_multimap_open<uint32_t, uint32_t> W4;
 		unsigned runs = c.thorough ? 10 : 3;
